@@ -120,6 +120,11 @@ def r1(ctx, R):
                 srcs |= {x.attr for x in ast.walk(st.value) if isinstance(x, ast.Attribute)}
     else:
         srcs |= {x.attr for x in ast.walk(scope_loop.iter) if isinstance(x, ast.Attribute)}
+    if isinstance(scope_loop.iter, ast.Name):
+        # elements added in place: xs.append(self.none_scope) / xs.extend(..) / xs.insert(..)
+        for c in calls_in(agg.node):
+            if isinstance(c.func, ast.Attribute) and c.func.attr in ("append", "extend", "insert") and isinstance(c.func.value, ast.Name) and c.func.value.id == scope_loop.iter.id and c.lineno < scope_loop.lineno:
+                srcs |= {x.attr for a_ in c.args for x in ast.walk(a_) if isinstance(x, ast.Attribute)}
     if "scope_list" in srcs and "none_scope" in srcs:
         R.ok("C07.R1", agg.short, "loop covers scope_list and the none-scope", loc(agg, scope_loop))
     else:
@@ -256,6 +261,9 @@ def r2(ctx, R):
                     if isinstance(x, ast.Call) and isinstance(x.func, ast.Attribute) and x.func.attr in ("append", "extend", "insert") and any(isinstance(y, ast.Name) and y.id == v for a_ in x.args for y in ast.walk(a_)):
                         return True
                     if isinstance(x, ast.Return) and x.value is not None and any(isinstance(y, ast.Name) and y.id == v for y in ast.walk(x.value)):
+                        return True
+                    # `errors += found` adds the elements of `found`
+                    if isinstance(x, ast.AugAssign) and isinstance(x.op, ast.Add) and any(isinstance(y, ast.Name) and y.id == v for y in ast.walk(x.value)):
                         return True
                 return False
 
